@@ -25,9 +25,8 @@ theorem bits_regenerated (s : L4) (hs : sOk s) :
       (∀ i, i < 256 → bs.getD i 2 = (sVal s).val / 2 ^ i % 2) ∧ evalBits bs = (sVal s).val :=
   ⟨Hand.Scalar.bits s, ScalarCodecTies.bits_tie s, _root_.bits_spec s hs⟩
 
-/-- the loop covers all 256 positions with the expected body (regenerated facts) -/
-theorem loop_facts : Facts.bitsLoopBound = 256 ∧
-    Facts.bitsLoopBody = "{ out[i] = uint8((n[i/64] >> (i % 64)) & 1) }" := by decide
+/-- the loop covers all 256 positions (regenerated fact; the body is regenerated statement by statement, see above) -/
+theorem loop_facts : Facts.bitsLoopBound = 256 := by decide
 
 -- non-vacuity: n-1 (bit 255 set) is a canonical scalar
 example : sOk Hand.Scalar.minusOne := ⟨by decide, by decide⟩
